@@ -91,6 +91,19 @@ def run_case(case, chooser):
         ckw["read_speed_limit"] = 64
     result = {}
 
+    observer = case.get("observer")
+
+    async def observe(c2, path):
+        """another session looks at the file / directory while the transfer is suspended half-way"""
+        if observer == "stat":
+            await c2.stat(path)
+            await c2.list("/")
+            await c2.list("/", raw_command="LIST")
+            await c2.exists(path)
+        elif observer == "retr":
+            async with c2.download_stream("/old") as st2:
+                result["observer_data"] = await st2.read()
+
     async def main():
         c1 = a.Client(**ckw)
         c2 = a.Client(path_io_factory=a.MemoryPathIO)
@@ -105,9 +118,11 @@ def run_case(case, chooser):
             try:
                 async with fn(path, offset=k) as st:
                     pos = 0
-                    for ln in chunks:
+                    for n_chunk, ln in enumerate(chunks):
                         await st.write(data[pos:pos + ln])
                         pos += ln
+                        if observer and n_chunk == 0:
+                            await observe(c2, path)
                 result["completed"] = True
             except a.StatusCodeError as exc:
                 result["completed"] = False
@@ -123,11 +138,15 @@ def run_case(case, chooser):
             got = bytearray()
             rs = case["readsize"]
             async with c1.download_stream(path, offset=k) as st:
+                n_blk = 0
                 while True:
                     blk = await st.read(rs)
                     if not blk:
                         break
                     got += blk
+                    n_blk += 1
+                    if observer and n_blk == 1:
+                        await observe(c2, path)
             result["completed"] = True
             result["data"] = bytes(got)
             chooser.active = False
@@ -166,6 +185,8 @@ def run_case(case, chooser):
                 if result.get("data") != want:
                     problems.append({"kind": "downloaded-bytes", "got": repr(result.get("data"))[:120],
                                      "want": repr(want)[:120]})
+            if observer == "retr" and result.get("observer_data") != OLD:
+                problems.append({"kind": "observer-download-bytes", "got": repr(result.get("observer_data"))[:120]})
         return {"problems": problems, "trace": report.fp(w.net.trace), "events": w.net.n_events,
                 "outcome": report.fp([op, result.get("completed"), len(snap.get("/" + target) or b"")])}
     finally:
@@ -191,7 +212,7 @@ def _work(item):
             if ch.deviations:
                 part.sample({"case": case, "choices": ch.choices}, limit=1)
             for p in res["problems"]:
-                part.violation({"kind": p["kind"], "op": case["op"], "rest": bool(case["k"]),
+                part.violation({"kind": p["kind"], "op": case["op"], "rest": bool(case["k"]), "observer": case.get("observer"),
                                 "backend_suspends": case["backend"] in ("slow", "async")},
                                {"problem": p, "case": case, "deviations": ch.deviations},
                                replay={"case": case, "choices": ch.choices, "kinds": kinds})
@@ -250,6 +271,17 @@ def grid(tier):
             c = {"op": op, "target": target, "n": 7, "k": k, "b": 3, "chunks": [4, 3], "readsize": 2,
                  "backend": backend, "window": 1 if backend == "slow" else 65536}
             items.append((c, d if backend == "memory" else 1, kinds, 3000 if tier == "quick" else 60000))
+    # another session looks at (stat / listings) or downloads the same file while the transfer is suspended half-way
+    # (lock-step send window: every block is a network event)
+    for backend in (["memory", "slow", "pathio"] if tier == "quick" else ["memory", "slow", "pathio", "async"]):
+        for obs in ("stat", "retr"):
+            for op, target, k in (("STOR", "new", 0), ("STOR", "old", 4), ("APPE", "old", 0), ("RETR", "old", 0),
+                                  ("RETR", "old", 4)):
+                if obs == "retr" and op != "RETR":
+                    continue
+                c = {"op": op, "target": target, "n": 7, "k": k, "b": 3, "chunks": [3, 2, 2], "readsize": 2,
+                     "backend": backend, "window": 1, "observer": obs}
+                items.append((c, 0, [], None))
     # all segmentations of a tiny data stream
     c = {"op": "STOR", "target": "new", "n": 5, "k": 0, "b": 2, "chunks": [5], "backend": "memory", "split_all": True}
     items.append((c, 1 if tier == "quick" else 2, ["split"], 5000))
